@@ -10,7 +10,7 @@
     has received it exactly once per matching subscription (or never, after a DISCONNECT).
 """
 import vlib
-from checks import brokerlib, sessionlib
+from checks import brokerlib, racelib, sessionlib
 
 
 def cast(node, q, retain, nodes):
@@ -141,8 +141,16 @@ def check(run):
         raise vlib.Inconclusive("broker driver died: %s" % crashes[0][2][-2000:])
     v = vlib.Verdict(run)
     nev, nscn, validated, rejected, tstates = brokerlib.validate(run, "C13", scns, tpath, v)
+    # sessions that end in the middle of their own CONNECT / SUBSCRIBE / teardown (one operation parked at a scheduler gate)
+    rn, rparked, rnev, rval, rrej, rts = racelib.check_family(run, "C13", v, tag="c13race", scns=racelib.will_scenarios())
+    validated += rval
+    tstates += rts
     rc = v.finish()
     vlib.write_evidence(run, {
+        "ends_in_the_middle": {"interleavings": rn, "parked_at_their_gate": rparked, "events": rnev, "rejections": rrej,
+                               "rule": "a will-carrying client hangs up (or pipelines DISCONNECT) while its own CONNECT is parked where the session is "
+                                       "looked up / recorded / registered, or while its SUBSCRIBE or its teardown is parked; RaceTrace.tla: once the node "
+                                       "registered the session and the client left without DISCONNECT both watchers get the will, once; never after DISCONNECT"},
         "traces_validated_against_impl": validated,
         "evaluations": len(scns),
         "distinct_nontrivial": len(scns),
@@ -162,4 +170,7 @@ def check(run):
 
 
 def replay(run, path):
+    import json
+    if json.load(open(path)).get("kind") == "race":
+        return racelib.replay(run, "C13", path)
     return brokerlib.replay(run, "C13", path)
